@@ -1261,7 +1261,9 @@ impl<'a> Parser<'a> {
     fn parse_import(&mut self) -> Result<ast::Import<'a>, Error> {
         let expr = ok!(self.parse_expr());
         expect_token!(self, Token::Ident("as"), "as");
-        let name = ok!(self.parse_expr());
+        // the target is an assignment target (a name or an attribute of a
+        // namespace), not an arbitrary expression
+        let name = ok!(self.parse_assign_name(true));
         ok!(self.skip_context_marker());
         Ok(ast::Import { expr, name })
     }
